@@ -165,6 +165,12 @@ def run_case(case, res=None):
             D['components'].append({'name': 'Elsewhere', 'parent': ['pkg', 0]})
             D['types'].append({'name': 'UdtElse', 'kind': 'udt', 'base': 'integer', 'parent': ['comp', len(D['components']) - 1]})
             log.append('user type UdtElse added in another component')
+        if D['classes'] and not any(a.get('type') == 'UdtB' for c_ in D['classes'] for a in c_['attrs']):
+            # a user type over a user type over a core type: the attribute is declared with the core type at the end of the chain
+            D['types'].append({'name': 'UdtA', 'kind': 'udt', 'base': 'real', 'parent': ['pkg', 1]})
+            D['types'].append({'name': 'UdtB', 'kind': 'udt', 'base': 'UdtA', 'parent': ['pkg', 1]})
+            D['classes'][-1]['attrs'].append({'name': 'Zq_chain', 'type': 'UdtB'})
+            log.append('attribute of a two-level user type added to %s' % D['classes'][-1]['kl'])
         if case.get('ensure') == 2 and D['classes']:
             # a structured data type and a user type based on it: attributes typed by them are of no supported type
             D['types'].append({'name': 'Struct1', 'kind': 'sdt', 'parent': ['pkg', 1]})
@@ -178,6 +184,13 @@ def run_case(case, res=None):
     def fail(bucket, detail):
         raise Violation(bucket, info, detail)
     rows, _ix = bpmodel.to_rows(D)
+    if case.get('detach') is not None:
+        # an attribute put in without a predecessor (R103 is conditional at both ends): the class still has it across R102,
+        # so it is declared like the others - the order of declarations is not stated
+        later = [v for tb, v in rows if tb == 'O_ATTR' and v['PAttr_ID']]
+        if later:
+            later[case['detach'] % len(later)]['PAttr_ID'] = 0
+            info['edits_applied'] = list(log) + ['one attribute detached from its predecessor (R103)']
     rows = c14_component.shuffle(rows, case['order'])
     text = bpmodel.render(rows)
     comp_name = D['components'][0]['name']
@@ -264,7 +277,8 @@ def run(ctx):
                                    'via_main': st.integers(0, 5).map(lambda k: k == 0),
                                    'base': st.sampled_from(['synth', 'synth', 'synth', 'simple_model']),
                                    'derive_id': st.one_of(st.none(), st.none(), st.integers(0, 9)),
-                                   'ensure': st.sampled_from([0, 1, 2])})
+                                   'ensure': st.sampled_from([0, 1, 2]),
+                                   'detach': st.one_of(st.none(), st.none(), st.integers(0, 9))})
     hyp_run(ctx, res, strat, body, ctx.pick(400, 2500), label='diagrams')
     return res
 
